@@ -53,11 +53,12 @@ class Execution:
 
 
 class Scheduler:
-    def __init__(self, prefix=(), horizon=20000, trace_files=None, record_trace=False, trace_names=None):
+    def __init__(self, prefix=(), horizon=20000, trace_files=None, record_trace=False, trace_names=None, trace_calls=False):
         self.prefix = list(prefix)
         self.horizon = horizon
         self.trace_files = trace_files  # tuple of path prefixes whose lines are yield points (fine mode)
         self.trace_names = trace_names  # optional set of function names to which line-level points are restricted
+        self.trace_calls = trace_calls  # yield at every function entry in the traced files instead of at every line
         self.record_trace = record_trace
         self.threads = []
         self.main_sem = threading.Semaphore(0)
@@ -217,7 +218,15 @@ def _make_tracer(s):
             return local
         return None
 
-    return tracer
+    def call_tracer(frame, event, arg):
+        if event != "call":
+            return None
+        code = frame.f_code
+        if code.co_filename.startswith(files) and (names is None or code.co_name in names):
+            s.yield_point("call %s:%s" % (code.co_filename.rsplit("/", 1)[-1], code.co_name))
+        return None
+
+    return call_tracer if s.trace_calls else tracer
 
 
 class SchedLock:
